@@ -2,12 +2,14 @@ package main
 
 import (
 	"encoding/json"
+	"fmt"
 	"os"
 	"path/filepath"
 	"sort"
 	"strings"
 
 	"github.com/modernizing/coca/pkg/application/analysis/javaapp"
+	"github.com/modernizing/coca/pkg/application/bs"
 	"github.com/modernizing/coca/pkg/domain/core_domain"
 )
 
@@ -101,7 +103,7 @@ func javaFullMulti(c map[string]json.RawMessage, dir string) (interface{}, error
 		idents := ia.AnalysisFiles(files)
 		fullApp := javaapp.NewJavaFullApp()
 		nodes := fullApp.AnalysisFiles(identifiers, files)
-		out = append(out, map[string]interface{}{"nodes": nodesJ(nodes, strip), "identifiers": nodesJ(idents, strip)})
+		out = append(out, map[string]interface{}{"nodes": nodesJ(nodes, strip), "identifiers": nodesJ(idents, strip), "bs": bsRun(dir, run)})
 	}
 	idk := []string{}
 	for _, i := range identifiers {
@@ -144,4 +146,38 @@ func javaFullFamily(c map[string]json.RawMessage) (interface{}, error) {
 		idk = append(idk, i.Package+"."+i.NodeName)
 	}
 	return map[string]interface{}{"nodes": nodesJ(nodes, dir+string(os.PathSeparator)), "identKeys": idk, "identifiers": nodesJ(identifiers, dir+string(os.PathSeparator))}, nil
+}
+
+// C07, bad-smell pass: the files of one run, in that order (the app walks a directory lexically: o000/, o001/, ...), through the
+// real BadSmellApp; result: the per-file findings in run order (the project-level graphConnectedCall finding names no file)
+func bsRun(dir string, run []string) [][]finding {
+	tmp, err := os.MkdirTemp("", "cvbs")
+	if err != nil {
+		return nil
+	}
+	defer os.RemoveAll(tmp)
+	paths := []string{}
+	for i, rel := range run {
+		data, err := os.ReadFile(filepath.Join(dir, rel))
+		if err != nil {
+			return nil
+		}
+		p := filepath.Join(tmp, fmt.Sprintf("o%03d", i), filepath.Base(rel))
+		_ = os.MkdirAll(filepath.Dir(p), 0755)
+		_ = os.WriteFile(p, data, 0644)
+		paths = append(paths, p)
+	}
+	app := bs.NewBadSmellApp()
+	nodes := app.AnalysisPath(tmp)
+	list := app.IdentifyBadSmell(nodes, nil)
+	out := make([][]finding, len(run))
+	for i, p := range paths {
+		out[i] = []finding{}
+		for _, m := range list {
+			if m.File == p {
+				out[i] = append(out[i], finding{"", m.Line, m.Bs, "", m.Size})
+			}
+		}
+	}
+	return out
 }
